@@ -123,6 +123,7 @@ struct OpResult {
     uint32_t nalloc = 0;  // allocation requests made by the library inside the op
     uint32_t nfailed = 0; // of which failed by injection
     uint32_t outstanding = 0; // library allocations made in this op and still live at its return
+    uint8_t n_shared_heap = 0;  // how many of the conflict points are accesses to a library heap block that outlives calls
     uint8_t n_edge = 0;        // solo pass: events at which the call touched a machine word it shares with a neighbouring
     uint32_t edge_ev[24] = {0}; // task's memory (or memory beyond its own range): the places where a preemption matters
     uint32_t leaked = 0;      // ... and still live when all threads have ended and run their exit handlers (filled in at the end of the pass)
@@ -207,6 +208,7 @@ struct Task {
     // per-op fault and stream state
     const Op *op = nullptr;
     uint32_t alloc_count = 0;
+    int in_once = 0;          // depth of one-time initialisers being run by this task
     uint32_t sys_count = 0;   // file-system / descriptor calls made by the current op so far
     FILE *wr = nullptr, *rd = nullptr;
     size_t wr_bytes = 0, rd_pos = 0;
@@ -295,6 +297,7 @@ struct AllocRec {
     uint32_t site;
     int task, op;
     bool guarded = false; // followed by a red zone of HEAP_RZ pattern bytes
+    bool once = false;    // allocated inside a pthread_once / call_once callback: shared by all later calls
 };
 enum { HEAP_RZ = 64 };
 extern const char *g_libc_static_names[];
